@@ -17,6 +17,7 @@ import (
 	"sort"
 	"strings"
 	"sync"
+	"sync/atomic"
 	"syscall"
 	"time"
 
@@ -231,6 +232,7 @@ func runDriver(driver string, ops []Op, n int) (map[int]string, error) {
 // caused it instead of killing the harness: the worker is restarted and the op's outcome is `crash`.
 func runImplAll(ops []Op, n int) []string {
 	out := make([]string, len(ops))
+	var timeouts int64
 	var wg sync.WaitGroup
 	for sh := 0; sh < n; sh++ {
 		wg.Add(1)
@@ -243,6 +245,12 @@ func runImplAll(ops []Op, n int) []string {
 				}
 			}()
 			for i := sh; i < len(ops); i += n {
+				// a tree on which hundreds of operations run out of time has established its violation: the rest is
+				// not run (outcome `unrun`, skipped by the comparer) so that the check still ends in minutes
+				if atomic.LoadInt64(&timeouts) >= 300 {
+					out[i] = "unrun"
+					continue
+				}
 				if ops[i].Risky {
 					out[i] = runChild(ops[i])
 					continue
@@ -256,6 +264,9 @@ func runImplAll(ops []Op, n int) []string {
 				}
 				res, alive := w.run(ops[i])
 				out[i] = res
+				if res == "timeout" {
+					atomic.AddInt64(&timeouts, 1)
+				}
 				if !alive {
 					w.kill()
 					w = nil
